@@ -66,6 +66,9 @@ pub struct Controller {
     /// called (outside all controller locks) for labels whose layout should be noted
     noter: Mutex<Option<Arc<dyn Fn(&str, Option<&str>) -> Option<String> + Send + Sync>>>,
     pub max_park: Duration,
+    /// seeded perturbation of the interleaving (stress): 0 = off
+    pub jitter: std::sync::atomic::AtomicU64,
+    hits: std::sync::atomic::AtomicU64,
 }
 
 impl Controller {
@@ -76,6 +79,8 @@ impl Controller {
             cv: Condvar::new(),
             noter: Mutex::new(None),
             max_park: Duration::from_secs(40),
+            jitter: std::sync::atomic::AtomicU64::new(0),
+            hits: std::sync::atomic::AtomicU64::new(0),
         })
     }
 
@@ -112,6 +117,20 @@ impl Controller {
             log.push(Event { role, label: label.clone(), table: table.clone(), note });
             log.len() - 1
         };
+        let jit = self.jitter.load(std::sync::atomic::Ordering::Relaxed);
+        if jit != 0 {
+            // splitmix of (seed, hit counter): every ~6th sync point yields or sleeps briefly
+            let n = self.hits.fetch_add(1, std::sync::atomic::Ordering::Relaxed);
+            let mut z = jit ^ n.wrapping_mul(0x9E37_79B9_7F4A_7C15);
+            z = (z ^ (z >> 30)).wrapping_mul(0xBF58_476D_1CE4_E5B9);
+            z = (z ^ (z >> 27)).wrapping_mul(0x94D0_49BB_1331_11EB);
+            z ^= z >> 31;
+            match z % 12 {
+                0 => std::thread::sleep(Duration::from_micros(100 + (z >> 8) % 900)),
+                1 => std::thread::yield_now(),
+                _ => {}
+            }
+        }
         let mut p = self.park.lock().unwrap();
         let matches = match &p.spec {
             Some(s) => s.label == label && s.table == table && s.role.map(|r| r == role).unwrap_or(true) && !p.parked && !p.released,
